@@ -12,6 +12,8 @@ pub mod c01;
 #[cfg(feature = "sodium")]
 pub mod c02;
 #[cfg(feature = "sodium")]
+pub mod c03;
+#[cfg(feature = "sodium")]
 pub mod c05;
 #[cfg(feature = "sodium")]
 pub mod c06;
@@ -29,6 +31,8 @@ pub fn dispatch(name: &str, cx: &mut Ctx) -> bool {
         "c02" => c02::run_c02(cx),
         #[cfg(feature = "sodium")]
         "c17" => c02::run_c17(cx),
+        #[cfg(feature = "sodium")]
+        "c03" => c03::run(cx),
         #[cfg(feature = "sodium")]
         "c05" => c05::run(cx),
         #[cfg(feature = "sodium")]
